@@ -17,8 +17,8 @@ ASSUME = [
     "encoding/asn1 of the installed default toolchain (go1.23.5) is the upstream reference; the DeliberateDiff list "
     "(base-128 groups with a leading 0x80 accepted in OID arcs and high tag numbers; GeneralizedTime fractions "
     "rejected; SET OF not sorted by Marshal) is pinned to that toolchain",
-    "'all byte strings and all target types' is decided on the structured family of Asn1Lax.tla (38 type shapes x 5 "
-    "containers x 3 value variants x 32 defects x paths x modes) plus seeded byte-level mutations of those inputs",
+    "'all byte strings and all target types' is decided on the structured family of Asn1Lax.tla (38 type shapes x container "
+    "stacks of depth <= 2 over 5 container kinds x 3 value variants x 32 defects x paths x modes) plus seeded byte-level mutations of those inputs",
     "a `lax` struct-field tag (instead of the top-level \"lax\" parameter) is recorded, not asserted (clause FieldTagLax)",
 ]
 
@@ -49,7 +49,16 @@ def run(ctx, replay=None):
                                                        "VERIF_REPLAY_BASE": rp["base"], "VERIF_REPLAY_HEX": rp["input_hex"]})
         return
     # 1. TLC: enumerate the cases, check the laws on the decision model, export case + verdict
-    cases, shapes = export(ctx, ctx.pick("Asn1Lax.cfg", "Asn1LaxFull.cfg"))
+    #    quick: every defect in modes strict / laxTop, the tolerated + 6 other defects below one container;
+    #    thorough: every defect below one container (Full) and the quick defects below two containers (Deep)
+    cases, shapes, seen = [], [], set()
+    for cfg in ctx.pick(["Asn1Lax.cfg"], ["Asn1LaxFull.cfg", "Asn1LaxDeep.cfg"]):
+        cs, sh = export(ctx, cfg)
+        for x, out in [(c, cases) for c in cs] + [(s, shapes) for s in sh]:
+            k = json.dumps(x.get("c", [x.get("name"), x.get("wrap")]), sort_keys=True)
+            if k not in seen:
+                seen.add(k)
+                out.append(x)
     ctx.exhaustive = True
     modes = {}
     for c in cases:
@@ -62,4 +71,4 @@ def run(ctx, replay=None):
     ctx.go_test("c10", run="TestReplay$", env=env)
     # 3. oracle-free laws on byte-level mutations, panic freedom, allocation meter
     ctx.go_test("c10", run="TestMutate$", name="c10mutate", timeout=3000,
-                env=dict(env, VERIF_MUTATIONS=ctx.pick(3000000, 20000000), VERIF_ALLOC_SAMPLES=ctx.pick(3000, 30000)))
+                env=dict(env, VERIF_MUTATIONS=ctx.pick(3000000, 60000000), VERIF_ALLOC_SAMPLES=ctx.pick(3000, 30000)))
